@@ -135,6 +135,9 @@ func (m *Model) isLib(f *ssa.Function) bool {
 		return false
 	}
 	t := topFunc(f)
+	if t.Pkg == nil && t.Origin() != nil {
+		return t.Origin().Pkg == m.P.Leader // an instantiation of a generic library function
+	}
 	return t.Pkg == m.P.Leader
 }
 
